@@ -3,7 +3,7 @@
 Random operator trees are built with the real public classes by eval() of generated Python source (so Python's
 own precedence, associativity and reflected-operator dispatch build the tree); compared: str(Shape[...]) with
 the model's printer, and the value the resulting annotation demands of an axis (public front door) with plain
-integer evaluation of the same Python expression.  Negative constants are the listed known finding K4.
+integer evaluation of the same Python expression.  Negative constants (literal or folded) print as (0-n) since F15.
 """
 
 from __future__ import annotations
@@ -30,8 +30,8 @@ def gen(rnd, depth: int, exponent: bool = False):
         if q < 0.5:
             return ("var", rnd.choice(NAMES))
         if q < 0.8:
-            return ("int", rnd.choice([0, 1, 2, 3, 4, 7, 10]))
-        return ("L", rnd.choice([0, 1, 2, 3, 5]))
+            return ("int", rnd.choice([0, 1, 2, 3, 4, 7, 10, -1, -4]))
+        return ("L", rnd.choice([0, 1, 2, 3, 5, -2]))
     if r < 0.8:
         op = rnd.choice(list(OPS))
         l = gen(rnd, depth - 1)
@@ -50,7 +50,7 @@ def py_src(t) -> str:
     """Fully parenthesised Python source that builds the tree with the public classes."""
     k = t[0]
     if k == "int":
-        return str(t[1])
+        return str(t[1]) if t[1] >= 0 else f"({t[1]})"
     if k == "L":
         return f"dltype.LiteralAxis({t[1]})"
     if k == "var":
@@ -107,20 +107,19 @@ def sym_sx(t) -> str:
     return f"(group {sym_sx(t[1])})"
 
 
-def has_negative_constant(t) -> bool:
-    """Does printing meet a constant (folded by dltype) that is negative or undefined?"""
+def undefined_constant(t) -> bool:
+    """Does printing meet a constant folded by dltype that has no value (isqrt of a negative, // 0, a negative exponent)?"""
     k = t[0]
-    if k in ("int", "L"):
-        return t[1] < 0
-    if k == "var":
+    if k in ("int", "L", "var"):
         return False
     kids = [x for x in t[1:] if isinstance(x, tuple)]
     if kids and all(x[0] in ("int", "L") for x in kids) and k != "group":
         try:
-            return int_eval(t, {}) < 0
+            int_eval(t, {})
+            return False
         except Exception:  # noqa: BLE001
             return True
-    return any(has_negative_constant(x) for x in kids)
+    return any(undefined_constant(x) for x in kids)
 
 
 _EXPECTED = re.compile(r"expected=(-?\d+)")
@@ -271,7 +270,7 @@ def run_shapes(tier: str, rnd, rep: Report, model: Model) -> None:
         if "v" not in res:
             rep.violation({"what": "building the shape did not finish", **rec})
             continue
-        neg = any(a[0] == "expr" and has_negative_constant(a[1]) for a in ax)
+        neg = any(a[0] == "expr" and undefined_constant(a[1]) for a in ax)
         mtext = unhex(ans.split()[1]) if ans.startswith("OK ") else None
         if res["v"] == "build":
             rep.count("shape_build_" + res["exn"])
@@ -282,11 +281,7 @@ def run_shapes(tier: str, rnd, rep: Report, model: Model) -> None:
             rep.disagreement({"what": "model printer and str(Shape[...]) differ", "model_text": mtext, **rec})
         if "annot" in res:
             rep.count("shape_annotation_" + res["annot"])
-            if neg and res["annot"] == "SyntaxError":
-                if not rep.known("K4", rec):
-                    rep.violation({"what": "a shape with a negative constant cannot be turned into an annotation", **rec})
-            else:
-                rep.violation({"what": f"TensorType[Shape[...]] raised {res['annot']} for a well-formed shape", **rec})
+            rep.violation({"what": f"TensorType[Shape[...]] raised {res['annot']} for a well-formed shape", **rec})
             continue
         want_mi = next((i for i, a in enumerate(ax) if a[0] in ("anon", "star")), None)
         want_mn = next((a[1] for a in ax if a[0] == "star"), None)
@@ -330,7 +325,7 @@ def run(tier: str, seed: int, rep: Report, model: Model) -> dict:
         if "v" not in res:
             rep.violation({"what": "building the shape did not finish", **rec})
             continue
-        neg = has_negative_constant(t)
+        neg = undefined_constant(t)
         mtext = unhex(ans.split()[1]) if ans.startswith("OK ") else None
         if res["v"] == "build":
             rep.count("build_" + res["exn"])
@@ -342,11 +337,7 @@ def run(tier: str, seed: int, rep: Report, model: Model) -> dict:
             rep.disagreement({"what": "model printer and str(Shape[...]) differ", "model_text": mtext, **rec})
         if "annot" in res:
             rep.count("annotation_" + res["annot"])
-            if neg and res["annot"] == "SyntaxError":
-                if not rep.known("K4", rec):
-                    rep.violation({"what": "a shape with a negative constant cannot be turned into an annotation", **rec})
-            else:
-                rep.violation({"what": f"TensorType[Shape[...]] raised {res['annot']} for a printable tree", **rec})
+            rep.violation({"what": f"TensorType[Shape[...]] raised {res['annot']} for a printable tree", **rec})
             continue
         ok = True
         for sc, got in zip(task["scopes"], res["values"]):
